@@ -66,6 +66,8 @@ def param(rng):
         return rng.choice([1, 2, 3, 5, 7, -1, -3]) / rng.choice([1, 2, 4, 8, 16])
     if r < 0.45:
         return 0.0
+    if r < 0.52:   # a very weak coupling (e.g. a residual field): still a term of the Hamiltonian, in every conversion
+        return rng.choice([-1, 1]) * rng.uniform(1.0, 9.0) * 1e-9
     return rng.uniform(-2.0, 2.0)
 
 
@@ -1224,6 +1226,13 @@ def run_conv(inp):
     L = rng.choice([1, 2, 2, 3, 3, 4] if d == 2 else [1, 2, 2, 3])
     bd = [1] + [rng.choice([1, 2, 2, 3]) for _ in range(L - 1)] + [1]
     blocks = rational_mpo(rng, L, d, bd)
+    # tensors of very different scale (a tiny coupling, or a gauge that puts 2^-30 on one tensor and 2^30 on another): the
+    # conversions must not treat a block as zero because its entries are small — power-of-two factors keep every entry exact
+    r_scale = rng.random()
+    if r_scale < 0.2:
+        blocks[0] = blocks[0] * 2.0**-30
+        if L >= 2 and rng.random() < 0.6:
+            blocks[-1] = blocks[-1] * 2.0**30
     transpose = rng.random() < 0.7
     m = MPO()
     if transpose:
